@@ -364,6 +364,11 @@ def run(ctx: Ctx) -> Outcome:
                 "after it; distinct by program hash.  Plus forward/mutate-input/backward cases for 25 op / layer classes (incl. the GRU, which back-propagates by itself), and 12 cases in which "
                 "the index object of x[index] / x[index] = v (integer/boolean tensor, ndarray, list) is changed after the forward pass.")
     seen = engcheck.report(out, results, "C05", oracle)
+    # the same with memory guarding switched off (`mem_guard_off`)
+    outg, resultsg = engcheck.run_programs(ctx, ctx.n(500, 3000), dict(GEN, n_stmts=ctx.n(9, 16), _guard_off=True),
+                                           "oracle", nontrivial, label="guard-off:")
+    seen |= engcheck.report(outg, resultsg, "C05", oracle)
+    out.merge(outg)
     # H_vars_only
     ncases = len(op_cases())
     items = [(ctx.seed, ci, w, mi) for ci in range(ncases) for w in range(3) for mi in range(ctx.n(2, 3))]
